@@ -3,6 +3,14 @@ from harness.drivers import linalg_drv
 
 
 def run(ck):
+    # MC_Trunc: the code-shaped threshold logic against the abstract rule, every spectrum / mode / cutoff / limit
+    import os
+    cfg = os.path.join(ck.scratch, "MC_Trunc.cfg")
+    q0 = ck.tier == "quick"
+    open(cfg, "w").write("SPECIFICATION Spec\nCONSTANTS\n  V = %d\n  Cutoffs <- %s\n  MaxBonds <- %s\n  Guarded = TRUE\n"
+                         "INVARIANT ImplKeepsWhatTheRuleSays\nINVARIANT KeptAboveDiscarded\nINVARIANT SplitIsExact\nCHECK_DEADLOCK FALSE\n"
+                         % ((4, "CutSetQ", "BondSetQ") if q0 else (5, "CutSet", "BondSet")))
+    ck.model("MC_TruncI.tla", cfg, timeout=1800)
     q = ck.tier == "quick"
     progs = linalg_drv.trunc_programs(ck.seed, 48 if q else 900)
     ck.cov["rule"] = ("monomial-block matrices with pairwise distinct perfect-square singular values (abelian/fermionic), six cutoff "
